@@ -339,7 +339,49 @@ pub async fn start_node(root: &str, id: u64, auto_init: bool, join: Option<u64>,
     invoker.add_raft_handler(&app);
     let n = Rc::new(NodeH { id, epoch, addr: node_addr(id), app, invoker: Arc::new(invoker) });
     NET.with(|net| net.borrow_mut().nodes.insert(node_addr(id), n.clone()));
+    if LEADER_CHANGES.with(|l| l.borrow().is_some()) {
+        // recorder of this incarnation's raft metrics: every change of (leader, term, state) with the applied index seen
+        // before it and the last log index seen before / at it
+        let mut rx = n.app.raft.metrics();
+        actix_rt::spawn(async move {
+            let mut prev = rx.borrow().clone();
+            while rx.changed().await.is_ok() {
+                let cur = rx.borrow().clone();
+                if cur.current_leader != prev.current_leader || cur.current_term != prev.current_term || cur.state != prev.state {
+                    LEADER_CHANGES.with(|l| {
+                        if let Some(v) = l.borrow_mut().as_mut() {
+                            v.push(LeaderChange { node: id, applied_before: prev.last_applied, log_before: prev.last_log_index, log_at: cur.last_log_index.max(prev.last_log_index), term: cur.current_term });
+                        }
+                    });
+                }
+                prev = cur;
+            }
+        });
+    }
     Ok(n)
+}
+
+/// one observed change of (leader, term, state) in a node's raft metrics
+#[derive(Clone, Debug)]
+pub struct LeaderChange {
+    pub node: u64,
+    pub applied_before: u64,
+    pub log_before: u64,
+    pub log_at: u64,
+    pub term: u64,
+}
+
+thread_local! {
+    static LEADER_CHANGES: RefCell<Option<Vec<LeaderChange>>> = RefCell::new(None);
+}
+
+/// switch the recording of leader changes on (for nodes started afterwards)
+pub fn record_leader_changes() {
+    LEADER_CHANGES.with(|l| *l.borrow_mut() = Some(vec![]));
+}
+
+pub fn leader_changes() -> Vec<LeaderChange> {
+    LEADER_CHANGES.with(|l| l.borrow().clone().unwrap_or_default())
 }
 
 /// kill -9: only completed disk mutations survive; the incarnation is fenced at every seam.
